@@ -135,4 +135,26 @@ Section Payload.
     replace (now2 >? ((now1 + lt) / giga + lt) * giga) with false; [reflexivity|].
     symmetry. rewrite Z.gtb_ltb. apply Z.ltb_ge. exact Hle.
   Qed.
+
+  (* ... and for no longer: more than [lt] seconds (+ the [lt] nanoseconds GeneratePayload adds)
+     after it was issued the payload is rejected — the lifetime is counted once *)
+  Corollary generated_payload_rejected_after_lifetime s nonce lt now1 now2 :
+    length nonce = 8%nat -> Forall is_byte nonce ->
+    0 <= lt <= 9223372036 -> 0 <= now1 -> now1 + lt < 2 ^ 33 * giga -> 0 <= now2 < 2 ^ 33 * giga ->
+    now1 + lt + lt * giga < now2 ->
+    check_payload hmac s lt now2 (generate_payload hmac s nonce lt now1) = Ok false.
+  Proof.
+    intros Hn Hb Hl H1 H1b H2 Hgt. rewrite check_generated_payload by assumption. cbv zeta.
+    rewrite beqb_refl.
+    assert (Ht : 0 <= (now1 + lt) / giga < 2 ^ 33).
+    { unfold giga in *. split; [apply Z.div_pos; lia|apply Z.div_lt_upper_bound; lia]. }
+    assert (Hfl : (now1 + lt) / giga * giga <= now1 + lt).
+    { unfold giga. pose proof (Z.mul_div_le (now1 + lt) 1000000000 ltac:(lia)). lia. }
+    rewrite Z.mod_small by (change (2 ^ 33) with 8589934592 in Ht; change (2 ^ 64) with 18446744073709551616; lia).
+    unfold to_int64. replace ((now1 + lt) / giga <? 2 ^ 63) with true
+      by (symmetry; apply Z.ltb_lt; change (2 ^ 33) with 8589934592 in Ht; change (2 ^ 63) with 9223372036854775808; lia).
+    rewrite expired_spec by (auto; lia).
+    replace (now2 >? ((now1 + lt) / giga + lt) * giga) with true; [reflexivity|].
+    symmetry. rewrite Z.gtb_ltb. apply Z.ltb_lt. lia.
+  Qed.
 End Payload.
